@@ -1,4 +1,94 @@
-Require Import Verif.FU.FUModel.
-From Coq Require Import ZArith.
-Theorem placeholder : (1 = 1)%Z. Proof. reflexivity. Qed.
-Print Assumptions placeholder.
+(* C08 - Future/Promise/latch: value reaches every waiter and callback exactly once.
+   Only statements; proofs are `exact <lemma of FU/FUProofs.v>`.  Reach latch progs s = "s is reachable from
+   the initial state of client programs `progs` under SOME schedule" - so every theorem below is quantified
+   over all schedules (incl. clock ticks), all programs and all thread counts. *)
+From Coq Require Import ZArith List Bool.
+Require Import Verif.Gen.Gen_future Verif.Conc.Machine Verif.FU.FUModel Verif.FU.FUProofs.
+Import ListNotations.
+Local Open Scope Z_scope.
+
+(* a callback never runs twice *)
+Theorem c08_callback_at_most_once : forall latch progs s, wf latch progs -> Reach latch progs s -> NoDup (ran s).
+Proof. exact fu_ran_nodup. Qed.
+Print Assumptions c08_callback_at_most_once.
+
+(* a callback never runs before the value is constructed *)
+Theorem c08_callback_after_value : forall latch progs s, wf latch progs -> Reach latch progs s -> early s = false.
+Proof. exact fu_not_early. Qed.
+Print Assumptions c08_callback_after_value.
+
+(* once set_value (or the final count_down) has returned, every on_finish call that has returned had its
+   callback run - whether it registered before, after or concurrently with set_value *)
+Theorem c08_callback_exactly_once : forall latch progs s, wf latch progs -> Reach latch progs s ->
+  hd s = HSealed -> (forall th, In th (threads s) -> setting th = false) ->
+  forall t th i, nth_error (threads s) t = Some th -> nth_error (prog th) i = Some OFin -> (i < opi th)%nat ->
+  In (t, i) (ran s).
+Proof. exact fu_finished_callbacks_ran. Qed.
+Print Assumptions c08_callback_exactly_once.
+
+(* get() returns, and wait_for returns true, only when the value has been constructed *)
+Theorem c08_get_sees_value : forall latch progs s th b, wf latch progs -> Reach latch progs s ->
+  In th (threads s) -> In (RGet b) (results th) -> b = true.
+Proof. exact fu_get_sees_value. Qed.
+Print Assumptions c08_get_sees_value.
+
+Theorem c08_wait_true_only_if_set : forall latch progs s th tmo a b rdy, wf latch progs -> Reach latch progs s ->
+  In th (threads s) -> In (RWait true tmo a b rdy) (results th) -> rdy = true.
+Proof. exact fu_wait_true_ready. Qed.
+Print Assumptions c08_wait_true_only_if_set.
+
+(* wait_for returns false only if at least the (clamped) timeout elapsed on the clock *)
+Theorem c08_wait_false_only_if_elapsed : forall latch progs s th tmo a b rdy, wf latch progs -> Reach latch progs s ->
+  In th (threads s) -> In (RWait false tmo a b rdy) (results th) -> tmo <= b - a.
+Proof. exact fu_wait_false_elapsed. Qed.
+Print Assumptions c08_wait_false_only_if_elapsed.
+
+(* after set_value, ready() is true and get/wait_for take the fast path: the READY bit and SEALED head are
+   never undone *)
+Theorem c08_ready_is_stable : forall latch progs s sch, wf latch progs -> Reach latch progs s ->
+  fready s = true -> fready (run st step s sch) = true /\ hd (run st step s sch) = HSealed.
+Proof. exact fu_ready_stable. Qed.
+Print Assumptions c08_ready_is_stable.
+
+(* no lost wakeup: once the READY word is published and no wake is pending, nobody is parked - and
+   nobody can park afterwards *)
+Theorem c08_no_lost_wakeup : forall latch progs s, wf latch progs -> Reach latch progs s ->
+  fready s = true -> (forall th, In th (threads s) -> wake_pending th = false) ->
+  forall th, In th (threads s) -> parked th = false.
+Proof. exact fu_no_lost_wakeup. Qed.
+Print Assumptions c08_no_lost_wakeup.
+
+(* every unfinished thread that is not parked in the kernel can take a step (no other way to block) *)
+Theorem c08_unparked_threads_enabled : forall latch progs s t th, wf latch progs -> Reach latch progs s ->
+  nth_error (threads s) t = Some th -> thread_done th = false -> parked th = false -> step s t <> None.
+Proof. exact fu_unparked_enabled. Qed.
+Print Assumptions c08_unparked_threads_enabled.
+
+(* a parked timed waiter is released by the clock alone *)
+Theorem c08_timed_wait_released_by_clock : forall latch progs s t th u d, wf latch progs -> Reach latch progs s ->
+  nth_error (threads s) t = Some th -> tpc th = WaitBlocked u d -> d <= clock s -> step s t <> None.
+Proof. exact fu_timed_released. Qed.
+Print Assumptions c08_timed_wait_released_by_clock.
+
+(* latch: the future is ready exactly when the count has reached zero *)
+Theorem c08_latch_ready_iff_zero : forall latch progs s, wf latch progs -> 0 < latch -> Reach latch progs s ->
+  (vset s = true <-> count s = 0).
+Proof. exact fu_latch_iff. Qed.
+Print Assumptions c08_latch_ready_iff_zero.
+
+(* the memory orders the argument relies on are the ones in the source (regenerated site tables) *)
+Theorem c08_memory_order_obligations : orders_ok = true.
+Proof. exact fu_orders_ok. Qed.
+Print Assumptions c08_memory_order_obligations.
+
+(* the READY bit is above any realistic waiter count *)
+Theorem c08_ready_mask_is_bit31 : READY_MASK = 2 ^ 31.
+Proof. exact fu_ready_mask. Qed.
+
+(* non-vacuity: a well-formed program, a reachable state with a parked waiter and a pending wake *)
+Example c08_wf_example : wf 0 [[OSet]; [OGet; OFin]; [OWait 2]].
+Proof. exact fu_wf_example. Qed.
+Example c08_reach_example :
+  exists s, Reach 0 [[OSet]; [OGet; OFin]; [OWait 2]] s /\
+            existsb parked (threads s) = true /\ existsb wake_pending (threads s) = true.
+Proof. exact fu_reach_example. Qed.
